@@ -120,7 +120,9 @@ Inductive stmt :=
 | SInclude (ts : list target) (is_list with_ctx ignore_missing : bool)
 | SImport (t : target) (alias : name) (with_ctx : bool)
 | SFrom (t : target) (names : list (name * name)) (with_ctx : bool)
-| SScope (k : skind) (x : name) (vals : list str) (body : list stmt).
+| SScope (k : skind) (x : name) (vals : list str) (body : list stmt)
+| SExtend (t : target).                     (* {% extends t %} of a template whose own top level only assigns, defines
+                                               macros and imports: the parent's root runs with the SAME context *)
 
 Record template := { t_globals : env; t_body : list stmt }.
 Definition tset := list (tname * template).
@@ -256,6 +258,11 @@ Section Run.
                 | Ok _ => Err EKey
                 | Err e => Err e
                 end
+            end
+        | SExtend t =>
+            match get_target ts t with
+            | None => Err ENotFound
+            | Some tg => run_body fu top s (t_body tg)
             end
         | SScope k v vals body =>
             (* a for loop, a with block, a private macro called in place: the body runs in an inner
